@@ -216,3 +216,32 @@ CONTRACTS[M + "__eq__"] = dict(
                    ensures=[("never-equal-to-None", "result == False")])],
     notes="domain: containers of 0..2 notes each, arbitrary names and octaves",
     properties=["C12", "C14"], battery="nc_pairs")
+
+# range test of a whole container: every note inside the instrument's range (not just the outer ones)
+_INR = "(pitch(self.range[0]) <= pitch(n) and pitch(n) <= pitch(self.range[1]))"
+CONTRACTS[I + "can_play_notes"] = dict(
+    params={"self": "Instrument", "notes": "NoteContainer"},
+    requires="is_name(self.range[0].name) and is_name(self.range[1].name) and all([is_name(n.name) for n in notes.notes])",
+    returns="bool", modifies=[],
+    ensures=[("true-exactly-when-every-note-is-inside-the-range", "result == all([%s for n in notes.notes])" % _INR)],
+    split=[{"field_types": {"notes.notes": "[" + ",".join(["Note"] * k) + "]"}} for k in range(0, 5)], split_is_domain=True,
+    variants=[dict(name="single-note", params={"self": "Instrument", "notes": "Note"},
+                   requires="is_name(self.range[0].name) and is_name(self.range[1].name) and is_name(notes.name)",
+                   ensures=[("the-note-inside-the-range",
+                             "result == (pitch(self.range[0]) <= pitch(notes) and pitch(notes) <= pitch(self.range[1]))")],
+                   split=None)],
+    notes="domain: containers of 0..4 notes in ANY order and spelling, arbitrary range notes",
+    properties=["C14"], battery="instr_nc")
+
+CONTRACTS[I + "set_range"] = dict(
+    params={"self": "Instrument", "range": "(Note,Note)"}, returns="None",
+    ensures=[("the-two-notes-are-the-range", "same_object(self.range[0], range[0]) and same_object(self.range[1], range[1])")],
+    modifies=["param:self"], properties=["C14"], battery=None,
+    variants=[dict(name="names", params={"self": "Instrument", "range": "(str,str)"},
+                   requires="is_name(range[0]) and is_name(range[1])",
+                   ensures=[("notes-of-those-names-in-octave-4",
+                             "self.range[0].name == range[0] and self.range[1].name == range[1] and "
+                             "self.range[0].octave == 4 and self.range[1].octave == 4"),
+                            ("new-note-objects", "is_fresh(self.range)")]),
+              dict(name="neither", params={"self": "Instrument", "range": "(int,int)"}, ensures=[],
+                   raises={"UnexpectedObjectError": "True"})])
